@@ -77,6 +77,43 @@ func (t *vTable) Lookup(_ context.Context, k string) (string, bool, error) {
 }
 func (t *vTable) LookupMulti(_ context.Context, k string) ([]string, error) { return t.m[k], nil }
 
+// vRefRewrite: replace_rcpt / replace_sender as documented - the entry for the whole address in its
+// lookup form, else the entry for its local part, whose replacements without a domain keep the domain
+// of the address - on a table given as a plain map; it never modifies the table.
+func vRefRewrite(tab map[string][]string, val string) ([]string, error) {
+	norm, err := address.ForLookup(val)
+	if err != nil {
+		return nil, err
+	}
+	if reps := tab[norm]; len(reps) > 0 {
+		for _, x := range reps {
+			if !address.Valid(x) {
+				return nil, fmt.Errorf("invalid replacement")
+			}
+		}
+		return append([]string(nil), reps...), nil
+	}
+	mbox, domain, err := address.Split(norm)
+	if err != nil {
+		return []string{val}, nil
+	}
+	if reps := tab[mbox]; len(reps) > 0 {
+		out := make([]string, 0, len(reps))
+		for _, x := range reps {
+			if strings.Contains(x, "@") && !strings.HasPrefix(x, "\"") && !strings.HasSuffix(x, "\"") {
+				if !address.Valid(x) {
+					return nil, fmt.Errorf("invalid replacement")
+				}
+				out = append(out, x)
+			} else {
+				out = append(out, x+"@"+domain)
+			}
+		}
+		return out, nil
+	}
+	return []string{val}, nil
+}
+
 func vRegister(m module.Module) {
 	module.RegisterInstance(m, nil)
 	module.Initialized[m.InstanceName()] = true
@@ -498,6 +535,14 @@ func TestVerif_C04(t *testing.T) {
 			vRegister(mt)
 			mts = append(mts, mt)
 		}
+		lpKey := ""
+		if ci%5 == 2 {
+			// an entry whose key and value are both local parts (chosen without drawing): the replacement keeps
+			// the domain of the address it is applied to - of each address, however often the entry is used
+			lpKey = []string{"list", "bob", "postmaster"}[(ci/5)%3]
+			mts[0].m[lpKey] = []string{[]string{"alice", "info"}[(ci/15)%2]}
+			stats["local-part-entry-reused"]++
+		}
 		g := &vGen{r: r, nT: nT, nTab: nTab}
 		chainKey := ""
 		if nTab >= 2 && r.chance(25) {
@@ -519,6 +564,14 @@ func TestVerif_C04(t *testing.T) {
 			mts[1].m["alice@corp.example"] = []string{"alice@sub.example.org", "list@corp.example"}
 			g.chain, g.split = []int{0, 1}, true
 			stats["expansion-chained-across-scopes"]++
+		}
+		// the tables as configured: the reference of the rewriting oracles below is evaluated on this copy
+		snap := make([]map[string][]string, len(mts))
+		for i, mt := range mts {
+			snap[i] = map[string][]string{}
+			for k, v := range mt.m {
+				snap[i][k] = append([]string(nil), v...)
+			}
 		}
 		depth := r.intn(3)
 		nodes, terms := g.root(depth)
@@ -602,6 +655,13 @@ func TestVerif_C04(t *testing.T) {
 				if chainKey != "" && r.chance(70) {
 					m.tos = append(m.tos, chainKey)
 				}
+				if lpKey != "" {
+					ds := []string{"example.org", "corp.example", "sub.example.org"}
+					m.tos = append(m.tos, lpKey+"@"+ds[(mi+ci)%3], lpKey+"@"+ds[(mi+ci+1)%3])
+					if mi == 1 {
+						m.from = lpKey + "@" + ds[(ci+2)%3]
+					}
+				}
 				if (ci+len(msgs))%6 == 1 {
 					// a quoted local part with an at-sign in it (chosen without drawing): the domain is what
 					// follows the last at-sign, as sender and as recipient
@@ -674,14 +734,36 @@ func TestVerif_C04(t *testing.T) {
 				sort.Ints(ids)
 				for _, id := range ids {
 					st := mods[id]
-					ns, err := st.RewriteSender(ctx, s)
+					// what the implementation answers now is only used to close the set of strings; the
+					// oracle of the model is the documented semantics of replace_rcpt / replace_sender
+					// evaluated on the tables as configured (vRefRewrite)
+					if ins, ierr := st.RewriteSender(ctx, s); ierr == nil {
+						known[ins] = true
+					}
+					if inr, ierr := st.RewriteRcpt(ctx, s); ierr == nil {
+						for _, x := range inr {
+							known[x] = true
+						}
+					}
+					ref, rerr := vRefRewrite(snap[id%10], s)
+					ns, err := s, error(nil)
+					if id >= 20 {
+						if rerr != nil {
+							err = rerr
+						} else {
+							ns = ref[0]
+						}
+					}
 					if err != nil {
 						rws = append(rws, fmt.Sprintf("((%s, %s), None)", cN(id), vB(s)))
 					} else {
 						rws = append(rws, fmt.Sprintf("((%s, %s), Some %s)", cN(id), vB(s), vB(ns)))
 						known[ns] = true
 					}
-					nr, err := st.RewriteRcpt(ctx, s)
+					nr, err := []string{s}, error(nil)
+					if id < 20 {
+						nr, err = ref, rerr
+					}
 					if err != nil {
 						rwr = append(rwr, fmt.Sprintf("((%s, %s), None)", cN(id), vB(s)))
 					} else {
